@@ -11,14 +11,14 @@ using uint = unsigned;
 struct pred3 {
     constexpr auto operator()(int x) const -> bool { return x % 3 == 0; }
 };
-struct op1 { // x*2+1 computed modulo 2^32 (no signed overflow)
-    constexpr auto operator()(int x) const -> int { return static_cast<int>(static_cast<uint>(x) * 2U + 1U); }
+struct op1 { // x*2+1 on a wrap-free domain (the argument is masked to 30 bits)
+    constexpr auto operator()(int x) const -> int { return (x & 0x3fffffff) * 2 + 1; }
 };
-struct op2 { // x*3+y modulo 2^32
-    constexpr auto operator()(int x, int y) const -> int { return static_cast<int>(static_cast<uint>(x) * 3U + static_cast<uint>(y)); }
+struct op2 { // x*3+y on a wrap-free domain (both arguments masked to 20 bits)
+    constexpr auto operator()(int x, int y) const -> int { return (x & 0xfffff) * 3 + (y & 0xfffff); }
 };
 struct mut1 { // for_each: in-place op1
-    constexpr auto operator()(int& x) const -> void { x = static_cast<int>(static_cast<uint>(x) * 2U + 1U); }
+    constexpr auto operator()(int& x) const -> void { x = (x & 0x3fffffff) * 2 + 1; }
 };
 struct gen1 { // generator: next, next+1, ...
     uint next;
